@@ -130,7 +130,24 @@ func seam(repo, out, mcDir string) {
 				text string
 			}
 			var edits []edit
+			var cuts [][2]int // byte ranges to delete
 			ast.Inspect(f, func(n ast.Node) bool {
+				if call, ok := n.(*ast.CallExpr); ok {
+					// v.MapKeys() / v.MapRange() / v.Seq2() on a reflect.Value: reflect's map iteration is random too
+					if sel, ok := call.Fun.(*ast.SelectorExpr); ok && len(call.Args) == 0 && (sel.Sel.Name == "MapKeys" || sel.Sel.Name == "MapRange" || sel.Sel.Name == "Seq2") {
+						if t := p.TypesInfo.TypeOf(sel.X); t != nil && t.String() == "reflect.Value" {
+							pos := p.Fset.Position(call.Pos())
+							site := fmt.Sprintf("%s:%d", strings.TrimPrefix(file, repo+"/"), pos.Line)
+							sites = append(sites, site)
+							// v.MapKeys()  ->  zzseam.MapKeys("site", v)
+							edits = append(edits, edit{pos.Offset, fmt.Sprintf("zzseam.%s(%q, ", sel.Sel.Name, site)})
+							xEnd := p.Fset.Position(sel.X.End()).Offset
+							callEnd := p.Fset.Position(call.End()).Offset
+							cuts = append(cuts, [2]int{xEnd, callEnd - 1}) // drop ".MapKeys(" keep ")"
+						}
+					}
+					return true
+				}
 				rs, ok := n.(*ast.RangeStmt)
 				if !ok {
 					return true
@@ -156,10 +173,22 @@ func seam(repo, out, mcDir string) {
 			must(err)
 			// import on the line of the package clause, so that line numbers do not move
 			edits = append(edits, edit{p.Fset.Position(f.Name.End()).Offset, `; import zzseam "github.com/octohelm/gengo/pkg/zzseam"`})
-			sort.SliceStable(edits, func(i, j int) bool { return edits[i].off > edits[j].off })
-			s := string(src)
+			// deletions are expressed as edits too: apply everything from the end of the file backwards
+			type op struct {
+				off, del int
+				text     string
+			}
+			var ops []op
 			for _, e := range edits {
-				s = s[:e.off] + e.text + s[e.off:]
+				ops = append(ops, op{e.off, 0, e.text})
+			}
+			for _, c := range cuts {
+				ops = append(ops, op{c[0], c[1] - c[0], ""})
+			}
+			sort.SliceStable(ops, func(i, j int) bool { return ops[i].off > ops[j].off })
+			s := string(src)
+			for _, o := range ops {
+				s = s[:o.off] + o.text + s[o.off+o.del:]
 			}
 			dst := filepath.Join(out, "seam", strings.ReplaceAll(strings.TrimPrefix(file, repo+"/"), "/", "__"))
 			must(os.MkdirAll(filepath.Dir(dst), 0o755))
